@@ -382,7 +382,13 @@ class Tensor:
         visit_node(self)
 
         # Go one tensor at a time and apply the chain rule to get its gradient
-        self.grad = grad
+        # (a leaf accumulates; the caller's gradient array is never aliased)
+        if not self.matches_shape(grad):
+            raise RuntimeError(f"Attempt to assign grad ({grad.shape}) to  a Tensor ({self.shape}) that has a different shape")
+        if self.is_leaf and self._grad is not None:
+            self._grad = self._grad + grad.data
+        else:
+            self._grad = grad.data.copy()
         for i, node in enumerate(reversed(ordered_nodes)):
             if node.grad_fn is not None:
                 #print(node.grad_fn)
